@@ -53,6 +53,7 @@ def cholSolveArr (n : Nat) (L : Array (Array F)) (b : Array F) : Array F := Id.r
   return x
 
 def cholSolver (ns nc : Nat) : Solver F ns nc where
+  accepts := fun M => (cholArr M).isSome
   solveV := fun M y =>
     match cholArr M with
     | none => vzero
@@ -186,8 +187,10 @@ def opsC14 : List (String × Handler) := [
         let a := (← nums rest).toArray
         let d := readLinearX ns nc T L hasU qonce ponce hasC a 0
         if d.used ≠ a.size then throw s!"arity:{a.size}≠{d.used}"
-        let o := lqr (cholSolver ns nc) d.S d.P dt d.x0 (nomOf d.ubar)
-        return fmt (← fmtOut o true)
+        match lqrChecked (cholSolver ns nc) d.S d.P dt d.x0 d.ubar with
+        | .ok o => return fmt (← fmtOut o true)
+        | .error .nominalLength => throw "raises:nominal-length"
+        | .error .notPD => throw "raises:not-pd"
       | _ => throw "arity"),
   -- c14.mpcx kind ns nc T L hasU given steps patience pc0 qonce ponce hasC | decreasing tol | system nums…
   --   given = 0: `stepper=None` (the model's `Stepper.default`); `MPC.__init__` = the model's `mpcInit`
